@@ -22,6 +22,11 @@ from xdsl.pattern_rewriter import (
 from xdsl.traits import ConstantLike
 
 
+def _fits_si12(value: int) -> bool:
+    """Whether the value can be the 12-bit signed immediate of an I-type instruction."""
+    return -2048 <= value < 2048
+
+
 class RemoveRedundantMv(RewritePattern):
     @op_type_rewrite_pattern
     def match_and_rewrite(self, op: riscv.MVOp, rewriter: PatternRewriter) -> None:
@@ -112,6 +117,8 @@ class AddImmediates(RewritePattern):
 
         match (lhs, rhs):
             case int(), None:
+                if not _fits_si12(lhs):
+                    return
                 rewriter.replace(
                     op,
                     riscv.AddiOp(
@@ -122,6 +129,8 @@ class AddImmediates(RewritePattern):
                     ),
                 )
             case None, int():
+                if not _fits_si12(rhs):
+                    return
                 rewriter.replace(
                     op,
                     riscv.AddiOp(
@@ -180,6 +189,8 @@ class SubImmediates(RewritePattern):
                 # TODO: anything to do here?
                 return
             case None, int():
+                if not _fits_si12(-rhs):
+                    return
                 rewriter.replace(
                     op,
                     riscv.AddiOp(
